@@ -277,6 +277,8 @@ def run(rep, facts, tier):
             continue
         cfg = Cfg(f)
         counts[name] = prov(rep, cfg, f)
+        from . import groupops
+        groupops.check_select(rep, cfg)     # PROV admits the selection site as "coordinates of existing elements": they must be matching ones
         entry_values(rep, cfg)
         samplers(rep, cfg)
         from . import c01
